@@ -375,7 +375,12 @@ def impl_main(payload):
     g = AGraph()
     g.command_array = np.array([[-1, 1, 1], [-1, 0, 0], [5, 0, 1]], dtype=int)
     x = np.ones((3, 2))
-    r = g.evaluate_equation_at(x)
+    try:
+        r = g.evaluate_equation_at(x)
+    except Exception as e:  # noqa
+        orc["viol"].append("1/0 from integer commands (stack [[-1,1,1],[-1,0,0],[5,0,1]]): evaluate_equation_at raised %r instead of "
+                           "returning a (3, 1) NaN column" % (e,))
+        r = np.full((3, 1), np.nan)
     if np.asarray(r).shape != (3, 1) or not np.all(np.isnan(r)):
         orc["viol"].append("1/0 from integer commands: evaluate_equation_at returned shape %r values %r, expected a (3, 1) NaN column"
                            % (np.asarray(r).shape, np.asarray(r).tolist()))
